@@ -1,0 +1,78 @@
+//! Verification hooks (only compiled with the `verif_hooks` cargo feature).
+//!
+//! They let an external test harness (a) choose and record every pivot drawn
+//! by the randomized selection routines and (b) bound the number of
+//! iterations of the bin-counting loop of the equispaced bin builders.
+//! With no script / fuel installed (the default) they change nothing.
+#![doc(hidden)]
+
+use std::cell::{Cell, RefCell};
+
+/// A pivot chooser: receives the arity `n` (the pivot is drawn from `0..n`)
+/// and the value drawn by the real generator; returns the pivot to use.
+pub type Chooser = Box<dyn FnMut(usize, usize) -> usize>;
+
+thread_local! {
+    static CHOOSER: RefCell<Option<Chooser>> = RefCell::new(None);
+    static TRACE: RefCell<Vec<(usize, usize)>> = RefCell::new(Vec::new());
+    static TRACING: Cell<bool> = Cell::new(false);
+    static FUEL: Cell<Option<u64>> = Cell::new(None);
+}
+
+/// Installs (or removes) the pivot chooser of the current thread.
+pub fn set_chooser(chooser: Option<Chooser>) {
+    CHOOSER.with(|c| *c.borrow_mut() = chooser);
+}
+
+/// Turns recording of `(arity, pivot)` pairs on or off and clears the trace.
+pub fn set_tracing(on: bool) {
+    TRACING.with(|t| t.set(on));
+    TRACE.with(|t| t.borrow_mut().clear());
+}
+
+/// Returns and clears the recorded trace.
+pub fn take_trace() -> Vec<(usize, usize)> {
+    TRACE.with(|t| std::mem::take(&mut *t.borrow_mut()))
+}
+
+/// Called right after each pivot draw.
+pub fn pivot(n: usize, drawn: usize) -> usize {
+    let chosen = CHOOSER.with(|c| match c.borrow_mut().as_mut() {
+        Some(f) => {
+            let p = f(n, drawn);
+            if n == 0 {
+                drawn
+            } else if p >= n {
+                n - 1
+            } else {
+                p
+            }
+        }
+        None => drawn,
+    });
+    if TRACING.with(|t| t.get()) {
+        TRACE.with(|t| t.borrow_mut().push((n, chosen)));
+    }
+    chosen
+}
+
+/// Marker contained in the panic message raised when the fuel runs out.
+pub const FUEL_EXHAUSTED: &str = "VERIF_FUEL_EXHAUSTED";
+
+/// Sets (or removes) the iteration budget of the current thread.
+pub fn set_fuel(fuel: Option<u64>) {
+    FUEL.with(|f| f.set(fuel));
+}
+
+/// Called once per iteration of the bin-counting loop.
+pub fn burn() {
+    FUEL.with(|f| {
+        if let Some(left) = f.get() {
+            if left == 0 {
+                f.set(None);
+                panic!("{}", FUEL_EXHAUSTED);
+            }
+            f.set(Some(left - 1));
+        }
+    });
+}
